@@ -86,7 +86,8 @@ BOUNDS = {
              "vertex lattice with unbounded edge cells (qhull runs natively; only the history and observation indices are solver "
              "variables there; 12 / 10 ops: voronoi_pixel_areas, voronoi_pixel_areas_for_split, split_cross, areas_for_magnification on the "
              "mesh and on x.copy() / x*2).  Part C: poisson/gaussian helpers of dataset.preprocess and "
-             "SimulatorImaging.via_image_from (with and without PSF) on a 2x3 image: symbolic image, sky level, PSF, seed (every integer "
+             "SimulatorImaging.via_image_from (with and without PSF, all 8 combinations of add_poisson_noise_to_data / "
+             "include_poisson_noise_in_noise_map / subtract_background_sky as forked booleans) on a 2x3 image: symbolic image, sky level, PSF, seed (every integer "
              "0 <= k < 2^32) and two symbolic prior generator states",
     "thorough": "Part A as quick.  Part B with the full operation lists (up to 33 ops per level), more masks (3x3 'L', 2x3 diagonal, "
                 "5x5 frames with 9 / 6 pixels for the mapping / w-tilde formalism, both at k<=2), Visibilities with 3 values, k<=3 on "
@@ -1661,6 +1662,9 @@ def body_rng(inp, H, W):
     A["data_with_gaussian_noise_added: two prior RNG states"] = _diff(r1, r2)
     E["data_with_gaussian_noise_added: two prior RNG states"] = zero2
     # the simulator (PSF convolution, sky, Poisson noise, noise map), with and without a caller PSF
+    # every flag variant of the simulator (forked symbolic booleans): noise added to the data or not, Poisson noise in the
+    # noise map or a constant one, sky subtracted or not
+    f_add, f_map, f_sub = [bool(b) for b in inp.get("flags", [True, True, True])]
     for tag, with_psf in (("no psf", False), ("psf", True)):
         psf_src = np.array(psf_v, copy=True)
         psf = aa.Kernel2D.no_mask(values=psf_src, pixel_scales=1.0) if with_psf else None
@@ -1670,7 +1674,9 @@ def body_rng(inp, H, W):
         image_before = _snap(image)
 
         def sim():
-            simulator = aa.SimulatorImaging(exposure_time=t, background_sky_level=sky, psf=psf, noise_seed=seed, normalize_psf=False)
+            simulator = aa.SimulatorImaging(exposure_time=t, background_sky_level=sky, psf=psf, noise_seed=seed, normalize_psf=False,
+                                            add_poisson_noise_to_data=f_add, include_poisson_noise_in_noise_map=f_map,
+                                            subtract_background_sky=f_sub)
             ds = simulator.via_image_from(image=image)
             return ds
 
@@ -1687,7 +1693,7 @@ def body_rng(inp, H, W):
         else:
             counts = (img + sky) * t
             draw = _oracle_draw("poisson", seed, counts, (H, W))
-            expected = (img + sky) + ((img + sky) - draw / t) - sky
+            expected = (img + sky) + (((img + sky) - draw / t) if f_add else 0.0) - (sky if f_sub else 0.0)
             A["SimulatorImaging(no psf).via_image_from data: equals draw after seed(k)"] = _diff(d1.data.native, expected)
             E["SimulatorImaging(no psf).via_image_from data: equals draw after seed(k)"] = zero2
     return A, E
@@ -1708,7 +1714,9 @@ def case_rng(ctx, H, W):
     ctx.assume(z3.Sum([e.t for e in psf.reshape(-1)]) >= z3.RealVal("1/2"))
     p1, p2 = V.integer("prior1"), V.integer("prior2")
     ctx.assume(z3.And(p1.t >= 0, p2.t >= 0, p1.t < 2 ** 31, p2.t < 2 ** 31))
-    inputs = {"image": image, "t": t, "sky": sky, "sigma": sigma, "seed": seed, "prior": [p1, p2], "psf": psf}
+    flags = [bool(ctx.fork_bool(V.boolean(nm))) for nm in ("add_poisson_noise_to_data", "include_poisson_noise_in_noise_map", "subtract_background_sky")]
+    ctx.set_case(flags=flags)
+    inputs = {"image": image, "t": t, "sky": sky, "sigma": sigma, "seed": seed, "prior": [p1, p2], "psf": psf, "flags": flags}
     # sqrt (noise map) as an uninterpreted function in this case: determinism only needs congruence, and the path
     # condition stays free of the non-linear definitional constraints r*r == t
     fsqrt = z3.Function("uf_sqrt", z3.RealSort(), z3.RealSort())
